@@ -39,6 +39,21 @@
 // limit, SECONDS_PER_SLOT and the state vector lengths, inside the structural constraints noted in config.go.
 // Every configuration is identified by a string (Config.ID) from which ConfigByID re-creates it.
 //
+// Round 2 added families in which constants that coincide in the minimal preset are pulled apart (the old ids
+// keep producing the very same chains; TestGoldenChains pins that):
+//
+//	apart:<seed>           per-fork constants pairwise different across forks (MIN_SLASHING_PENALTY_QUOTIENT*,
+//	                       PROPORTIONAL_SLASHING_MULTIPLIER*, INACTIVITY_PENALTY_QUOTIENT*), activation cap != churn,
+//	                       all MAX_* per-block limits pairwise different, TARGET_COMMITTEE_SIZE != MAX_COMMITTEES_PER_SLOT,
+//	                       vector lengths that are not powers of two (SLOTS_PER_HISTORICAL_ROOT 3/5/6/12 epochs,
+//	                       EPOCHS_PER_HISTORICAL_VECTOR 12/24/72/96, EPOCHS_PER_SLASHINGS_VECTOR 6/10/12/48,
+//	                       SYNC_COMMITTEE_SIZE 12/20/24), sweep 7/11/13/311, waiting times pairwise different,
+//	                       MIN_ATTESTATION_INCLUSION_DELAY untouched, SLOTS_PER_EPOCH 8 or 6, strictly increasing
+//	                       fork schedule through all five forks
+//	rand2:<seed>           rand:<seed> with each "apart" ingredient applied with probability 1/2
+//	mainnetconst@a,b,c,d   the published mainnet preset+config with SLOTS_PER_EPOCH 8
+//	fast2@a,b,c,d          fast@ with a 4-epoch eth1 voting period and MAX_DEPOSITS 3 (for policy "showcase")
+//
 // # Genesis
 //
 // phase0.KickStartStateWithSignatures (default) or phase0.GenesisFromEth1 with proofs and signatures verified
@@ -68,6 +83,25 @@
 // The execution engine is MockEngine: answers valid by default, scriptable per call (valid / invalid /
 // error), records the arguments of every call.
 //
+// # Unusual but valid block shapes (round 2)
+//
+// Policy knobs, all off in the round-1 policies: LateMode (planned inclusion delays: minimum, isqrt(SLOTS_PER_EPOCH)
+// -1/+0/+1, exactly SLOTS_PER_EPOCH, and in deneb later than SLOTS_PER_EPOCH), ReincludeProb (aggregates included
+// again as supersets), BurstProb / OpMix.Fill (exactly MAX_x proposer slashings, attester slashings, exits,
+// deposits, BLS changes in one block), PayloadEdgeProb / OpMix.PayloadEdge (extra_data of 0/31/32 bytes, no or
+// several transactions, 0 or MAX_BLOBS_PER_BLOCK commitments), ExitAtEarliest (deposit-activated validators exit in
+// the first block of activation_epoch + SHARD_COMMITTEE_PERIOD), Showcase (the first slot of every fork epoch has
+// a block with every signed operation kind, deposits included by timing the eth1 votes). Named policies: late,
+// full, edge, earlyexit, showcase, leak-recover-calm. Counters.Ops records that the shapes occur: att_delay:<bucket>,
+// attestation_reincluded, block_full:<list>, extra_data:<n>, txs:0 / txs:many, voluntary_exit:at-earliest,
+// fork_boundary_block:<fork>, fork_boundary_complete:<fork>, fork_boundary_missing:<kind>, eth1_vote:held.
+//
+// # Sibling chains
+//
+// c.Branch(seed) deep-copies the chain at its head (state, deposit contract, duties, participation sets, key
+// bookkeeping, eth1 vote, counters; own spec copy, own MockEngine, fresh epochs context, new random stream):
+// siblings advance independently with different blocks from the common ancestor.
+//
 // # The /repo defect the generator works around (see Chain.FollowCodeSyncCommittee)
 //
 // common.ProcessSlots hands EpochsContext.RotateEpochs the UpgradeableBeaconState wrapper
@@ -92,6 +126,7 @@
 //
 // # Harness mode
 //
-// Mode "chainselftest" (selftest.go): op lines `chain <cfgId> <n> <seed> <slots> [balances] [policy] [mutants]`;
+// Mode "chainselftest" (selftest.go): op lines
+// `chain <cfgId> <n> <seed> <slots> [balances] [policy] [mutants=k] [mode=eth1] [followcode] [branch=k] [want:...]`;
 // Exec builds the chain and answers `ok <counters>` or `err slot=<n>`.
 package chain
